@@ -204,6 +204,12 @@ def main():
         def mk_lincomb(self, value, lc):
             return rt.LinComb(value, lc)
 
+        def mk_bool(self, lincomb):
+            return pysnark.boolean.LinCombBool(lincomb, False)
+
+        def mk_fxp(self, lincomb):
+            return pysnark.fixedpoint.LinCombFxp(lincomb, False)
+
     c = NCtx()
     # SymInt(z3.Int("s_v")) style operands in setup(): give z3.Int a concrete twin
     real_Int = z3.Int
